@@ -4,7 +4,7 @@
 -/
 import Proofs.MRT.Main
 import Proofs.C03.FoldValue
-import Props.C03
+import Props.C03a
 set_option autoImplicit false
 
 namespace Narsese
